@@ -150,6 +150,17 @@ def make_source_direct(R, rng, d, i, force=None):
         a[:, sz[2] // 2:, :, :] = 0            # half of the volume is background
         levels[key] = a
         os.makedirs(os.path.join(out, key))
+        extra_cs = None
+        if not force and rng.random() < 0.4:
+            extra_cs = [rng.choice([2, 4, 8]) for _ in range(3)]
+            if extra_cs != cs:
+                scales[-1]["chunk_sizes"].append(extra_cs)      # a second, complete chunking of the same voxels
+            else:
+                extra_cs = None
+        for cc in (pipeline.chunk_grid(sz, extra_cs) if extra_cs else []):
+            x0, x1, y0, y1, z0, z1 = cc
+            with open(os.path.join(out, key, f"{x0}-{x1}_{y0}-{y1}_{z0}-{z1}"), "wb") as f:
+                f.write(np.ascontiguousarray(a[:, z0:z1, y0:y1, x0:x1]).astype(np.dtype(dt).newbyteorder("<")).tobytes())
         for cc in pipeline.chunk_grid(sz, cs):
             x0, x1, y0, y1, z0, z1 = cc
             with open(os.path.join(out, key, f"{x0}-{x1}_{y0}-{y1}_{z0}-{z1}"), "wb") as f:
@@ -233,8 +244,9 @@ def run(R):
         os.makedirs(d)
         if i % 3 == 2:
             src_dir, info, src_acc, src_kind, src_scales = make_source_direct(R, rng, d, i)
+            older = _older_generation(src_dir, info)
             for j in range(2):
-                _convert(R, rng, d, j, src_dir, info, src_acc, src_kind, src_scales)
+                _convert(R, rng, d, j, src_dir, info, src_acc, src_kind, src_scales, older=older if j == 0 else None)
             _damaged_source(R, rng, d, src_dir, info, src_acc, src_kind)
             _copy_info_into_populated(R, rng, d, src_dir, src_kind)
             continue
@@ -256,6 +268,20 @@ def run(R):
             _damaged_source(R, rng, d, src_dir, info, src_acc, src_kind)
         else:
             _copy_info_into_populated(R, rng, d, src_dir, src_kind)
+
+
+def _older_generation(src_dir, info):
+    """Copy of a directly written source (raw, flat, no gzip) in which the lowest bit of every voxel is
+    flipped: the same dataset description, other voxel values."""
+    older = src_dir + "-older"
+    shutil.copytree(src_dir, older)
+    isz = np.dtype(info["data_type"]).itemsize
+    for s in info["scales"]:
+        sd = os.path.join(older, s["key"])
+        for fn in os.listdir(sd):
+            raw = np.fromfile(os.path.join(sd, fn), dtype=f"<u{isz}")
+            (raw ^ 1).tofile(os.path.join(sd, fn))
+    return older
 
 
 def _copy_info_into_populated(R, rng, d, src_dir, src_kind):
@@ -309,7 +335,7 @@ def _damaged_source(R, rng, d, src_dir, info, src_acc, src_kind):
                     "destination cannot equal the source)", case, {})
 
 
-def _convert(R, rng, d, j, src_dir, info, src_acc, src_kind, src_scales, force=None):
+def _convert(R, rng, d, j, src_dir, info, src_acc, src_kind, src_scales, force=None, older=None):
     dst = os.path.join(d, f"dst{j}")
     # destination kinds in rotation (every kind occurs in every run), not at random
     kinds = ["sharded-gz", "deep-gz", "flat", "sharded", "flat-gz", "deep"]
@@ -338,7 +364,7 @@ def _convert(R, rng, d, j, src_dir, info, src_acc, src_kind, src_scales, force=N
                 s["encoding"] = "raw"
             if dst_kind.startswith("sharded"):
                 cs = s["chunk_sizes"][0]
-                if len(set(cs)) != 1:
+                if len(set(cs)) != 1 or len(s["chunk_sizes"]) != 1:
                     dst_kind = "deep-gz"
                 else:
                     enc = "gzip" if dst_kind.endswith("gz") else "raw"
@@ -357,6 +383,12 @@ def _convert(R, rng, d, j, src_dir, info, src_acc, src_kind, src_scales, force=N
     opts, dst_acc = storage_opts(dst_kind if not dst_kind.startswith("sharded") else "deep")
     if dst_kind.startswith("sharded"):
         opts, dst_acc = [], {}
+    # an older generation of the dataset (other voxel values) already sits in the destination, stored in the
+    # OTHER form (plain vs .gz): the conversion below has to replace it
+    if older and not copy_info and not dst_kind.startswith("sharded"):
+        flipped = [o for o in opts if o != "--no-gzip"] + ([] if "--no-gzip" in opts else ["--no-gzip"])
+        rc0, _so, _se = pipeline.run_script("convert_chunks", [older, dst] + flipped, inprocess=True)
+        R.count("destination:holds-an-older-generation-in-the-other-form" + ("" if rc0 == 0 else ":pre-run-failed"))
     via_http = src_kind == "flat" and rng.random() < 0.7
     before = tree_hash(src_dir)
     srv = None
